@@ -195,8 +195,27 @@ func runC16(r *rep.Report, thorough bool) error {
 			"Q2 DELETE FROM T WHERE c_1 = $flag$ AND A = $a1$ AND Bb = $flag$", "Q SELECT 1", "Q", "Q WHERE A = $v", "Q WHERE A = $$", "Q WHERE A = $v$$w$ AND Bb=$w$",
 			"Q WHERE A = $ab$ AND Bb = $a$ AND c_1 = $abc$", "Q WHERE A\t=\n$v$", "Q WHERE xA = $v$",
 		}
+		// grammar: one to six `field = $name$` conditions, names drawn with repetition from a small
+		// pool (every pattern of first occurrences and repetitions up to length six turns up)
+		{
+			fields := []string{"A", "Bb", "c_1"}
+			names := []string{"v", "w", "x", "flag", "a1"}
+			seps := []string{" AND ", " OR ", ", ", " AND (", ") OR "}
+			for i := 0; i < 250; i++ {
+				k := 1 + rng.Intn(6)
+				q := fmt.Sprintf("Q%d UPDATE T SET ", i)
+				for j := 0; j < k; j++ {
+					if j > 0 {
+						q += seps[rng.Intn(len(seps))]
+					}
+					eq := []string{" = ", "=", "  =  ", " =\t"}[rng.Intn(4)]
+					q += fields[rng.Intn(len(fields))] + eq + "$" + names[rng.Intn(len(names))] + "$"
+				}
+				qt = append(qt, q+";")
+			}
+		}
 		for i := 0; i < 300; i++ {
-			b := []byte(qt[rng.Intn(len(qt))])
+			b := []byte(qt[rng.Intn(12)])
 			if len(b) > 2 {
 				switch rng.Intn(3) {
 				case 0:
